@@ -68,6 +68,19 @@ type World struct {
 	Cnt    map[string]int64
 	Hist   map[string]map[string]bool // every value ever written per key (C12 etc.)
 	seqDir int
+
+	// Adversarial caller (C14/C15): one key buffer and one value buffer are reused for every call and
+	// poisoned after each return; Alias records the first canary failure.
+	Adversarial bool
+	kbuf, vbuf  []byte
+	Alias       string
+	kept        []keptSlice // slices returned by Get / ListKeys with a private copy taken at return time
+}
+
+type keptSlice struct {
+	what string
+	got  []byte
+	copy []byte
 }
 
 var worldSeq int
@@ -171,6 +184,8 @@ func (w *World) value(key, vc string, arg int) []byte {
 		return fill(3)
 	case "E":
 		return []byte{}
+	case "F": // fixed length (arg bytes), independent of the configuration
+		return fill(arg)
 	case "L": // large relative to the file: two of them never fit in one file
 		return fill(int(w.Cfg.FileSize) * 3 / 10)
 	case "X": // alone exceeds the limit
@@ -352,6 +367,9 @@ func (w *World) CheckReads() (clause, detail string) {
 		// point reads of the whole universe plus a never-written key
 		for _, k := range append(append([]string{}, w.Keys...), "zz-never") {
 			v, err := w.DB.Get([]byte(k))
+			if w.Adversarial && err == nil {
+				w.Keep("Get("+k+")", v)
+			}
 			want, ok := w.Model[k]
 			switch {
 			case ok && err != nil:
@@ -379,6 +397,9 @@ func (w *World) CheckReads() (clause, detail string) {
 			if k == nil {
 				c, d = "listkeys-nil", "ListKeys returned a nil key"
 				return nil
+			}
+			if w.Adversarial {
+				w.Keep("ListKeys", k)
 			}
 			got = append(got, string(k))
 		}
@@ -484,6 +505,106 @@ type ApplyResult struct {
 	Detail string
 }
 
+const poisonByte = 0xEE
+
+// advArgs copies key and value into the caller's reused buffers (adversarial mode).
+func (w *World) advArgs(key string, val []byte) ([]byte, []byte) {
+	if !w.Adversarial {
+		return []byte(key), val
+	}
+	if w.kbuf == nil {
+		w.kbuf = make([]byte, 16)
+		w.vbuf = make([]byte, 1<<17)
+		w.poison()
+	}
+	w.checkCanary("before reuse")
+	k := w.kbuf[:len(key)]
+	copy(k, key)
+	if len(val) > cap(w.vbuf) {
+		w.vbuf = make([]byte, len(val)*2)
+	}
+	v := w.vbuf[:len(val)]
+	copy(v, val)
+	return k, v
+}
+
+// advDone is called after a call returned: the buffers must still hold what the caller put there
+// (the database never writes into them), then the caller scribbles over them.
+func (w *World) advDone(key string, val []byte, what string) {
+	if !w.Adversarial {
+		return
+	}
+	if string(w.kbuf[:len(key)]) != key && w.Alias == "" {
+		w.Alias = fmt.Sprintf("%s modified the caller's key buffer: %q -> %q", what, key, w.kbuf[:len(key)])
+	}
+	if val != nil && string(w.vbuf[:len(val)]) != string(val) && w.Alias == "" {
+		w.Alias = fmt.Sprintf("%s modified the caller's value buffer", what)
+	}
+	for _, b := range w.kbuf[len(key):] {
+		if b != poisonByte && w.Alias == "" {
+			w.Alias = fmt.Sprintf("%s wrote beyond the key slice into the caller's buffer", what)
+		}
+	}
+	w.tailCheck(len(val), what)
+	w.poison()
+}
+
+func (w *World) tailCheck(from int, what string) {
+	for i := from; i < len(w.vbuf); i++ {
+		if w.vbuf[i] != poisonByte {
+			if w.Alias == "" {
+				w.Alias = fmt.Sprintf("%s: the caller's value buffer was written at offset %d (beyond the %d bytes passed in)", what, i, from)
+			}
+			return
+		}
+	}
+}
+
+func (w *World) poison() {
+	for i := range w.kbuf {
+		w.kbuf[i] = poisonByte
+	}
+	for i := range w.vbuf {
+		w.vbuf[i] = poisonByte
+	}
+}
+
+// checkCanary: between calls the poisoned buffers must stay poisoned ("never writes into them later").
+func (w *World) checkCanary(when string) {
+	if !w.Adversarial || w.kbuf == nil || w.Alias != "" {
+		return
+	}
+	for i, b := range w.kbuf {
+		if b != poisonByte {
+			w.Alias = fmt.Sprintf("%s: the caller's key buffer was modified at offset %d after the call had returned", when, i)
+			return
+		}
+	}
+	for i, b := range w.vbuf {
+		if b != poisonByte {
+			w.Alias = fmt.Sprintf("%s: the caller's value buffer was modified at offset %d after the call had returned (the database wrote into a retained slice)", when, i)
+			return
+		}
+	}
+}
+
+// Keep remembers a slice returned by the database together with a private copy.
+func (w *World) Keep(what string, b []byte) {
+	if len(w.kept) < 256 {
+		w.kept = append(w.kept, keptSlice{what: what, got: b, copy: append([]byte(nil), b...)})
+	}
+}
+
+// KeptChanged reports the first returned slice whose content changed after it was returned.
+func (w *World) KeptChanged() string {
+	for _, k := range w.kept {
+		if string(k.got) != string(k.copy) {
+			return fmt.Sprintf("a slice returned by %s changed afterwards: %q -> %q", k.what, truncate(string(k.copy), 16), truncate(string(k.got), 16))
+		}
+	}
+	return ""
+}
+
 // Apply executes one symbolic operation on the real database and on the model.
 // Mutations that return an unexpected error are modelled as "no effect" and counted in w.Errs.
 func (w *World) Apply(op Op) ApplyResult {
@@ -491,7 +612,9 @@ func (w *World) Apply(op Op) ApplyResult {
 	switch op.K {
 	case "put":
 		val := w.value(op.Key, op.VC, op.Arg)
-		err := w.guard(func() error { return w.DB.Put([]byte(op.Key), val) })
+		k, v := w.advArgs(op.Key, val)
+		err := w.guard(func() error { return w.DB.Put(k, v) })
+		w.advDone(op.Key, val, "DB.Put")
 		if err == nil {
 			w.Model[op.Key] = string(val)
 			w.remember(op.Key, val)
@@ -500,7 +623,9 @@ func (w *World) Apply(op Op) ApplyResult {
 		}
 		return ApplyResult{Err: err}
 	case "del":
-		err := w.guard(func() error { return w.DB.Delete([]byte(op.Key)) })
+		k, _ := w.advArgs(op.Key, nil)
+		err := w.guard(func() error { return w.DB.Delete(k) })
+		w.advDone(op.Key, nil, "DB.Delete")
 		if err == nil {
 			delete(w.Model, op.Key)
 		} else {
@@ -554,15 +679,21 @@ func (w *World) applyBatch(op Op) ApplyResult {
 			switch s.K {
 			case "put":
 				val := w.value(s.Key, s.VC, s.Arg)
-				if err := b.Put([]byte(s.Key), val); err != nil {
+				k, v := w.advArgs(s.Key, val)
+				err := b.Put(k, v)
+				w.advDone(s.Key, val, "Batch.Put")
+				if err != nil {
 					return fmt.Errorf("Batch.Put: %w", err)
 				}
-				v := string(val)
-				staged[s.Key] = &v
+				sv := string(val)
+				staged[s.Key] = &sv
 				order = append(order, s.Key)
 				w.remember(s.Key, val)
 			case "del":
-				if err := b.Delete([]byte(s.Key)); err != nil {
+				k, _ := w.advArgs(s.Key, nil)
+				err := b.Delete(k)
+				w.advDone(s.Key, nil, "Batch.Delete")
+				if err != nil {
 					return fmt.Errorf("Batch.Delete: %w", err)
 				}
 				staged[s.Key] = nil
@@ -590,7 +721,8 @@ func (w *World) applyBatch(op Op) ApplyResult {
 
 // RunTrace executes ops on a fresh world; after every op calls check (which may return a violation).
 // The first violation stops the execution.
-func RunTrace(cfg Cfg, keys []string, ops []Op, res *TaskResult, check func(w *World, i int, op Op, ar ApplyResult) *Violation) *Violation {
+// custom (optional) may handle an operation itself (returns handled=true).
+func RunTrace(cfg Cfg, keys []string, ops []Op, res *TaskResult, check func(w *World, i int, op Op, ar ApplyResult) *Violation, custom ...func(w *World, i int, op Op) (*Violation, bool)) *Violation {
 	beginExecution()
 	w := NewWorld(cfg, keys)
 	defer w.Destroy()
@@ -599,6 +731,18 @@ func RunTrace(cfg Cfg, keys []string, ops []Op, res *TaskResult, check func(w *W
 		return viol("", "open-fresh", "open-fresh", "Open of a fresh directory failed: "+panicDetail(err))
 	}
 	for i, op := range ops {
+		if len(custom) > 0 {
+			if v, handled := custom[0](w, i, op); handled {
+				res.Transitions++
+				if v != nil {
+					return v
+				}
+				if w.Dead || w.DB == nil {
+					break
+				}
+				continue
+			}
+		}
 		ar := w.Apply(op)
 		res.Transitions++
 		if v := check(w, i, op, ar); v != nil {
